@@ -199,6 +199,156 @@ def rule_MP3(rep, prog):
                 "_dispatch_lane_class_dispose must crash when the queue is disposed while locked / enqueued / non-empty", sample={})
 
 
+# functions that own the +2 unconditionally by contract (no flags parameter decides it), one reason each
+CC4_CONTRACT = {
+    "_dispatch_queue_invoke_finish": "called by _dispatch_queue_class_invoke which hands over the +2 it got from the enqueue",
+    "_dispatch_lane_class_barrier_complete": "callers pass CONSUME_2 whenever target != NONE (dispatch_assert in the function; _dispatch_queue_wakeup normalises flags by retaining first)",
+}
+
+
+def rule_CC4(rep, prog, q):
+    rid = rep.rule("C17-CC4", "an enqueued queue holds +2: every call that pushes the function's own queue onto its target (dx_push(tq, dq) / "
+                   "_dispatch_queue_push_queue) is reached only with CONSUME_2 known set in the caller's flags or after a retain_2 on that path", floor=3)
+    n = 0
+    for fn in prog.all_functions():
+        pushes = []
+        for c in fn.all_insts():
+            if c.op != "call":
+                continue
+            if c.callee == "_dispatch_queue_push_queue" and len(c.ops) >= 2 and root_ptr(fn, c.ops[1]) == ("a", 0):
+                pushes.append(c)
+            elif "icallee" in c.d and "dq_push" in callee_slot(prog, c) and len(c.ops) >= 2 and root_ptr(fn, c.ops[1]) == ("a", 0):
+                pushes.append(c)
+        if not pushes or not any(k_ in (fn.params[0][1] if fn.params else "") for k_ in ("dispatch_queue_s", "dispatch_lane_s", "dispatch_workloop_s", "dispatch_source_s")):
+            continue
+        if fn.name in CC4_CONTRACT:
+            continue
+        # the wakeup-flags parameter: an i32 parameter tested against CONSUME_2
+        ctests = []
+        for i in fn.all_insts():
+            if i.op == "icmp" and i.d["pred"] in ("ne", "eq") and i.ops[1][0] == "c" and i.ops[1][1] == 0:
+                a = fn.inst(i.ops[0])
+                if a is not None and a.op == "and" and a.ops[1][0] == "c" and a.ops[1][1] == q.CONSUME_2:
+                    ctests.append((i, i.d["pred"] == "ne"))
+        retains = calls_named(fn, ("_dispatch_retain_2", "_dispatch_retain_2_unsafe"))
+        for c in pushes:
+            n += 1
+            rep.saw(fn)
+            res = paths.walk(fn, entry_point(fn), lambda i: i is c, bound=200000)
+            bad = None
+            for kind, inst, cx, path in res:
+                if kind != "hit":
+                    continue
+                consume = any(cx.truth.get(t.id) == pol for t, pol in ctests)
+                insts = [i for b in path for i in fn.blocks[b].insts]
+                retained = any(r in insts for r in retains)
+                if not (consume or retained):
+                    bad = path
+            rep.require(rid, bad is None, c.loc, fn.name, "enqueue-without-plus2:%s" % fn.name,
+                        "%s enqueues its queue on the target on a path where neither the caller's CONSUME_2 was established nor a retain_2 was taken: the drainer "
+                        "drops +2 it never got, and the queue is finalised while the application (or a child queue) still references it (path %s)" % (fn.name, bad),
+                        sample={"fn": fn.name, "push": c.loc})
+    if n < 3:
+        rep.unknown(rid, "fewer than 3 self-enqueue sites found (%d)" % n)
+
+
+def rule_OD5(rep, prog, q):
+    rid = rep.rule("C17-OD5", "consuming the caller's +2 on an object (wakeup / completion with CONSUME_2, *_release_2_tailcall) is the last use of that object AND of "
+                   "pointers borrowed from its fields (e.g. its target chain) in the function", floor=6)
+    n = 0
+    for fn in prog.all_functions():
+        for c in fn.all_insts():
+            if c.op != "call":
+                continue
+            consuming = c.callee in ("_dispatch_release_2_tailcall", "_dispatch_release_tailcall")
+            if not consuming and c.ops:
+                for o in c.ops[1:]:
+                    if o[0] == "c" and o[2] == 32 and (o[1] & q.CONSUME_2) and (c.callee or "").startswith(("_dispatch_lane_non_barrier_complete", "_dispatch_queue_wakeup",
+                            "_dispatch_lane_wakeup", "_dispatch_lane_barrier_complete", "_dispatch_lane_class_barrier_complete", "_dispatch_workloop_wakeup")) or \
+                       (o[0] == "c" and o[2] == 32 and (o[1] & q.CONSUME_2) and "icallee" in c.d and "dq_wakeup" in callee_slot(prog, c)):
+                        consuming = True
+            if not consuming or not c.ops:
+                continue
+            X = root_ptr(fn, c.ops[0])
+            if X[0] not in ("i", "a"):
+                continue
+            n += 1
+            rep.saw(fn)
+            # pointers borrowed from X before the consume
+            borrowed = {X}
+            for l in fn.all_insts():
+                if l.op == "load" and l.d.get("ty", "").endswith("*") and root_ptr(fn, l.d["ptr"]["base"]) == X and l.d["ptr"].get("off", 0) > 0 and not fn.inst_reaches(c, l):
+                    borrowed.add(("i", l.id))
+            # closure: phis merging a borrowed pointer (loop-carried walks of the target chain)
+            grew = True
+            while grew:
+                grew = False
+                for ph in fn.all_insts():
+                    if ph.op == "phi" and ("i", ph.id) not in borrowed and any(o[0][0] in ("i", "a") and root_ptr(fn, o[0]) in borrowed for o in ph.ops):
+                        borrowed.add(("i", ph.id))
+                        grew = True
+            bad = None
+            for u in fn.all_insts():
+                if u is c or not fn.inst_reaches(c, u) or fn.inst_reaches(u, c) and u.block is not c.block and fn.block_dominates(u.block.id, c.block.id):
+                    continue
+                if u.op in ("br", "ret", "phi", "icmp"):
+                    continue
+                ops = u.ops
+                for o in ops:
+                    r = root_ptr(fn, o) if o[0] in ("i", "a") else None
+                    if r in borrowed and not (u.op == "call" and (u.callee or "").startswith("llvm.")):
+                        # re-loading a field of X after the consume, or using a borrowed pointer
+                        if fn.inst_reaches(c, u) and not (u.block is c.block and u.idx < c.idx):
+                            bad = u
+                            break
+                if u.op == "load" and u.d.get("ptr") and root_ptr(fn, u.d["ptr"]["base"]) in borrowed and not (u.block is c.block and u.idx < c.idx):
+                    bad = u
+                if bad:
+                    break
+            # loops: a use that is reachable only via a back edge that also re-establishes ownership is out of scope; keep straight-line + forward uses
+            rep.require(rid, bad is None, c.loc, fn.name, "use-after-consume:%s" % fn.name,
+                        "%s keeps using %s (at %s) after the call at %s consumed its reference: the object - and everything it alone keeps alive, such as its "
+                        "target queue chain - may already be disposed" % (fn.name, "the object or a pointer borrowed from it", bad.loc if bad else None, c.loc),
+                        sample={"fn": fn.name, "consume": c.loc})
+    if n < 6:
+        rep.unknown(rid, "fewer than 6 consuming calls found (%d)" % n)
+
+
+def rule_TM6(rep, prog):
+    rid = rep.rule("C17-TM6", "timer heap ownership: (re)arming a timer takes the owner's +2 exactly when it was not armed BEFORE this reconfiguration (the armed "
+                   "state is sampled before any disarm), and a timer that ends up disarmed gives it back", floor=2)
+    fn = prog.fn("_dispatch_timer_unote_resume")
+    rep.saw(fn)
+    k = consts.get(["DU_STATE_ARMED"], unit="event/event")
+    armed = []   # (icmp, state-reading call, polarity: icmp true <=> armed)
+    for i in fn.all_insts():
+        if i.op == "icmp" and i.d["pred"] in ("ne", "eq") and i.ops[1][0] == "c" and i.ops[1][1] == 0:
+            a = fn.inst(i.ops[0])
+            if a is not None and a.op == "and" and a.ops[1][0] == "c" and a.ops[1][1] == k["DU_STATE_ARMED"]:
+                src = fn.inst(a.ops[0])
+                if src is not None and src.op == "call" and "unote_state" in (src.callee or ""):
+                    armed.append((i, src, i.d["pred"] == "ne"))
+    for c in fn.all_insts():
+        if c.op == "call" and c.callee and "_dispatch_unote_armed" in c.callee:
+            armed.append((c, c, True))
+    dis = calls_named(fn, "_dispatch_timer_unote_disarm")
+    ret = calls_named(fn, "_dispatch_retain_unote_owner")
+    rel = calls_named(fn, ("_dispatch_release_unote_owner_tailcall", "_dispatch_release_unote_owner"))
+    if not armed or not ret or not rel:
+        rep.unknown(rid, "anchor vanished in _dispatch_timer_unote_resume (armed tests=%d retain=%d release=%d)" % (len(armed), len(ret), len(rel)))
+        return
+    for r in ret + rel:
+        cx = paths.dom_ctx(fn, r)
+        want_armed = r in rel
+        used = [(t, src, pol) for t, src, pol in armed if t.id in cx.truth]
+        ok = bool(used) and all((cx.truth[t.id] == pol) == want_armed for t, src, pol in used) and \
+            not any(fn.inst_reaches(d, src) for t, src, pol in used for d in dis)
+        rep.require(rid, ok, r.loc, fn.name, "timer-owner-ref-keyed-on-stale-state:%s" % r.callee,
+                    "_dispatch_timer_unote_resume %s the owner reference under an armed-state test that is %s: after the disarm that a heap change forces the "
+                    "ARMED bit is clear, so an already armed timer takes a second +2 and its source is never disposed" % ("retains" if r in ret else "releases",
+                    "sampled after a disarm" if used else "missing"), sample={"call": r.callee, "armed_tests": len(used)})
+
+
 def run(rep, tier="quick", srcdir=None, only=None):
     prog, units = load(UNITS, tier, srcdir)
     rep.units = units
@@ -210,6 +360,12 @@ def run(rep, tier="quick", srcdir=None, only=None):
         rule_MP2(rep, prog, q)
     if want("C17-MP3"):
         rule_MP3(rep, prog)
+    if want("C17-CC4"):
+        rule_CC4(rep, prog, q)
+    if want("C17-OD5"):
+        rule_OD5(rep, prog, q)
+    if want("C17-TM6"):
+        rule_TM6(rep, prog)
     if want("C13-OD2"):
         C13.rule_OD2(rep, prog)      # data objects: returned / stored sub-objects are retained (destructors run exactly once)
     if want("C13-WM3"):
